@@ -472,38 +472,7 @@ def run_case(case, Violation):
             emu = None
 
         # ---------- configuration history on this one emulator
-        run["history"] = []
-        if emu is not None and case.get("history"):
-            from pulser_simulation import SimConfig
-
-            np.random.seed(int(case.get("np_seed", 0)) % (2**32))
-            for how, kw in case["history"]:
-                try:
-                    if how == "reset":
-                        emu.reset_config()
-                    else:
-                        kw2 = dict(kw)
-                        kw2["noise"] = tuple(kw2.get("noise", ()))
-                        cfg = SimConfig(**kw2)
-                        (emu.set_config if how == "set" else emu.add_config)(cfg)
-                    run["history"].append("ok")
-                except NotImplementedError:
-                    run["history"].append("unsupported")
-                except Exception as e:  # noqa: BLE001
-                    run["history"].append(type(e).__name__)
-                    bad("config-history:" + type(e).__name__,
-                        f"{how}_config({kw}) raised {e!r} on a valid emulator")
-            nm = emu._hamiltonian.config
-            clean = set(nm.noise_types) <= {"SPAM", "dephasing"} and not (
-                "SPAM" in nm.noise_types and nm.state_prep_error > 0)
-            if not clean:
-                # the last (clean) step was refused: nothing can be said
-                run["status"] = "history-not-clean"
-                for op in case["ops"]:
-                    op.pop("_skipped", None)
-                run["chans"] = []
-                return run, viols
-
+        # (applied further down, once the oracle's ingredients exist)
         # ---------- inputs of the Coq model (sampler outputs)
         chans = []
         for name, cs in samp.channel_samples.items():
@@ -576,7 +545,64 @@ def run_case(case, Violation):
         ks = resolve_probes(case, len(times_ns), times_ns, o_mask_end or impl_mask_end, edges)
         samp_ext = emu.samples_obj
         c6, c3 = run["c6"], run["c3"]
-        if states == basis_states:
+
+        # ---------- configuration history on this one emulator.  Whether the
+        # configuration reached is "clean" (no atom badly prepared, nothing
+        # drawn at random) is decided from the CALLS, not read back from the
+        # emulator: set replaces, reset empties, add only adds new noise types.
+        run["history"] = []
+        if case.get("history") and states == basis_states:
+            from pulser_simulation import SimConfig
+
+            np.random.seed(int(case.get("np_seed", 0)) % (2**32))
+            exp_types, exp_eta = set(), 0.0
+            n_steps = len(case["history"])
+            for si, (how, kw) in enumerate(case["history"]):
+                try:
+                    if how == "reset":
+                        emu.reset_config()
+                        exp_types, exp_eta = set(), 0.0
+                    else:
+                        kw2 = dict(kw)
+                        kw2["noise"] = tuple(kw2.get("noise", ()))
+                        cfg = SimConfig(**kw2)
+                        (emu.set_config if how == "set" else emu.add_config)(cfg)
+                        new_types = set(kw2["noise"])
+                        if how == "set":
+                            exp_types = new_types
+                            exp_eta = float(kw.get("eta", 0.0)) if "SPAM" in new_types else 0.0
+                        else:
+                            if "SPAM" in new_types and "SPAM" not in exp_types:
+                                exp_eta = float(kw.get("eta", 0.0))
+                            exp_types = exp_types | new_types
+                    run["history"].append("ok")
+                except NotImplementedError:
+                    run["history"].append("unsupported")
+                except Exception as e:  # noqa: BLE001
+                    run["history"].append(type(e).__name__)
+                    bad("config-history:" + type(e).__name__,
+                        f"{how}_config({kw}) raised {e!r} on a valid emulator")
+                clean = exp_types <= {"SPAM", "dephasing"} and not ("SPAM" in exp_types and exp_eta > 0)
+                if clean and si < n_steps - 1 and ks:
+                    # intermediate clean configuration: the Hamiltonian must be
+                    # the documented one here too (oracle only)
+                    for k in ks[:2]:
+                        t = times_ns[k]
+                        Himp = np.asarray(emu.get_hamiltonian(t).full(), dtype=complex)
+                        Hdoc = doc_hamiltonian(case, prog, states, ids, coords, t, c6, c3, mag,
+                                               o_mask, o_mask_end, weights)
+                        tol = TOL * (1.0 + float(np.max(np.abs(Himp))))
+                        if Himp.shape != Hdoc.shape or np.max(np.abs(Himp - Hdoc)) > tol:
+                            Hnl = np.asarray(emu.get_hamiltonian(t, noiseless=True).full(), dtype=complex)
+                            if Hnl.shape == Himp.shape and np.max(np.abs(Hnl - Himp)) <= tol:
+                                continue  # same as the fresh emulator: a known finding's case, judged at the end
+                            bad("config-history:hamiltonian-not-restored-mid-history",
+                                f"after {case['history'][: si + 1]} H(t={t}) is not the documented Hamiltonian "
+                                "although the configuration has no badly prepared atom and no random noise",
+                                dict(t=t, step=si))
+            if not clean:
+                run["status"] = "history-not-clean"  # generator never ends on a noisy step
+        if states == basis_states and run["status"] != "history-not-clean":
             for k in ks:
                 t = times_ns[k]
                 Himp = np.asarray(emu.get_hamiltonian(t).full(), dtype=complex)
